@@ -300,7 +300,8 @@ def case_st(draw):
                 dd["doc"] = ("pre", dd["doc"][1])
         kind = draw(st.sampled_from(["subroutine", "function"]))
         procs.append({"name": f"p{p}_" + draw(st.sampled_from(["run", "calc", "make"])), "kind": kind, "dummies": dummies,
-                      "doc": draw(st.sampled_from([None, "does things", "computes, a lot"])), "result": draw(st.booleans()) if kind == "function" else False})
+                      "doc": draw(st.sampled_from([None, "does things", "computes, a lot"])), "result": draw(st.booleans()) if kind == "function" else False,
+                      "kworder": draw(st.permutations(list(range(nd)))), "npos": draw(st.integers(0, max(0, nd - 1)))})
     return {"decls": decls, "multi": multi, "procs": procs, "blank_between": draw(st.booleans()), "comment_between": draw(st.booleans())}
 
 
@@ -356,6 +357,15 @@ def build(case, with_calls=True):
         text = f"    call {p['name']}(" + ", ".join(actuals) + ")"
         calls.append(("positional", p, len(lines), text, actuals))
         lines.append(text)
+        # the arguments with commas / parentheses first, simple ones after them
+        cfirst = [["'a, b'", "f(ci, 2)", "ci", "cr(1)"][j % 4] for j in range(nd)]
+        text = f"    call {p['name']}(" + ", ".join(cfirst) + ")"
+        calls.append(("positional", p, len(lines), text, cfirst))
+        lines.append(text)
+        sfirst = [["'a, b'", "ci", "cr(1)", "3"][j % 4] for j in range(nd)]
+        text = f"    call {p['name']}(" + ", ".join(sfirst) + ")"
+        calls.append(("positional", p, len(lines), text, sfirst))
+        lines.append(text)
         plain = [["ci", "cr(1)", "3", "cj"][j % 4] for j in range(nd)]
         text = f"    call {p['name']}(" + ", ".join(plain) + ")"
         calls.append(("plain", p, len(lines), text, plain))
@@ -366,6 +376,19 @@ def build(case, with_calls=True):
             text = f"    call {p['name']}(" + ", ".join(kw) + ")"
             calls.append(("keyword", p, len(lines), text, kw))
             lines.append(text)
+            # keyword arguments in a drawn order (any dummy may come first), simple values; and a positional
+            # prefix followed by the remaining dummies as keywords in a drawn order
+            order = list(p.get("kworder") or range(nd))
+            kw = [f"{p['dummies'][j]['name']}={plain[j]}" for j in order]
+            text = f"    call {p['name']}(" + ", ".join(kw) + ")"
+            calls.append(("keyword-permuted", p, len(lines), text, kw))
+            lines.append(text)
+            npos = p.get("npos", 0)
+            if npos:
+                mixed = plain[:npos] + [f"{p['dummies'][j]['name']}={plain[j]}" for j in order if j >= npos]
+                text = f"    call {p['name']}(" + ", ".join(mixed) + ")"
+                calls.append(("positional-then-keyword", p, len(lines), text, mixed))
+                lines.append(text)
     lines += ["  end subroutine caller", "end module c11m"]
     return "\n".join(lines) + "\n", exp, calls
 
@@ -502,12 +525,25 @@ def check_case(ctx, case, scratch):
         pos = base
         for ai, a in enumerate(actuals):
             cur = pos + max(1, len(a) // 2)
+            if kind not in ("positional", "plain") and "=" in a:
+                # a keyword argument is identified by the text before the cursor: place the cursor in the value
+                eq = a.index("=")
+                cur = pos + eq + 1 + max(1, (len(a) - eq - 1) // 2)
             resp, _ = srv.request("textDocument/signatureHelp", pos_params(path, ln, cur))
             res = resp.get("result")
-            want_idx = ai if kind in ("positional", "plain") else [d["name"] for d in p["dummies"]].index(a.split("=")[0])
-            ctx.case(("sig", text, ai), kind == "keyword" or any(c in a for c in "(',"), classes=[f"signature:{kind}"])
+            is_kw = "=" in a and a.split("=")[0] in [d["name"] for d in p["dummies"]] and kind not in ("positional", "plain")
+            want_idx = [d["name"] for d in p["dummies"]].index(a.split("=")[0]) if is_kw else ai
+            ctx.case(("sig", text, ai), kind.startswith("keyword") or kind == "positional-then-keyword" or any(c in a for c in "(',"),
+                     classes=[f"signature:{kind}"] + (["signature:keyword-names-first-dummy-not-first"] if is_kw and want_idx == 0 and ai > 0 else []))
             if not isinstance(res, dict) or not res.get("signatures"):
-                add(f"signature:{kind}:none", f"signatureHelp in {text.strip()!r} at argument {ai} -> {res}")
+                in_literal = text[:cur].count("'") % 2 == 1
+                if in_literal:
+                    ctx.event("signature:cursor-inside-a-character-literal:no-answer(tolerated)")
+                elif "(" in a and kind != "plain":
+                    # one root cause whatever the argument style: the innermost open parenthesis is taken for the call
+                    add("signature:positional:none", f"signatureHelp in {text.strip()!r} at argument {ai} -> {res}")
+                else:
+                    add(f"signature:{kind}:none", f"signatureHelp in {text.strip()!r} at argument {ai} -> {res}")
             else:
                 sig = res["signatures"][0]
                 labels = [pp["label"].split("=")[0] for pp in sig.get("parameters", [])]
@@ -518,7 +554,7 @@ def check_case(ctx, case, scratch):
                     why = "argument-contains-" + ("comma-in-string" if any("'" in x and "," in x for x in pr) and "'" in a else
                                                   ("parentheses" if any("(" in x and "," in x for x in pr) else
                                                    ("comma-in-string" if any("'" in x and "," in x for x in pr) else "plain")))
-                    if kind == "plain":
+                    if kind in ("plain", "keyword-permuted", "positional-then-keyword"):
                         why = "plain-arguments"
                     add(f"signature:{kind}:active-parameter:{why}", f"{text.strip()!r} cursor in {a!r}: activeParameter {res.get('activeParameter')} != {want_idx}")
             pos += len(a) + 2
@@ -532,5 +568,23 @@ def run(ctx):
 
 def replay(ctx, case):
     sig = case.pop("signature", None) if isinstance(case, dict) else None
+    if "sig_requests" in case:
+        # model-free: a source text and [line, column, expected activeParameter] triples
+        root = os.path.join(ctx.scratch, "c11_replay")
+        shutil.rmtree(root, ignore_errors=True)
+        os.makedirs(root)
+        path = os.path.join(root, "c11r.f90")
+        with open(path, "w") as fh:
+            fh.write(case["text"])
+        srv = Server(root=root, argv=ARGV)
+        out = []
+        for ln, col, want in case["sig_requests"]:
+            resp, _ = srv.request("textDocument/signatureHelp", pos_params(path, ln, col))
+            res = resp.get("result")
+            got = res.get("activeParameter") if isinstance(res, dict) else None
+            if got != want:
+                out.append(Disc(sig or "signature:replay", f"signatureHelp at {ln}:{col} ({case['text'].splitlines()[ln].strip()!r}): activeParameter {got} != {want}"))
+        shutil.rmtree(root, ignore_errors=True)
+        return out
     discs = check_case(ctx, case, ctx.scratch)
     return discs
